@@ -102,6 +102,59 @@ fn utf8_plain(r: &mut Rng, len: usize) -> String {
     s
 }
 
+/// Well-formed option list (type, length >= 2, data) of exactly `n` octets (n = 1 is padded by a
+/// single stray octet).
+fn option_list(r: &mut Rng, n: usize) -> Vec<u8> {
+    let mut v = Vec::with_capacity(n);
+    while v.len() < n {
+        let left = n - v.len();
+        if left == 1 {
+            v.push(r.u8());
+            break;
+        }
+        let l = if left <= 3 || r.chance(1, 3) { left.min(255) } else { r.range(2, (left.min(40)) as u64) as usize };
+        let l = if left - l == 1 { l - 1 } else { l }.max(2);
+        v.push(*r.pick(&[1u8, 2, 3, 5, 7, 8, 13, 0x11]));
+        v.push(l as u8);
+        let body = r.bytes(l - 2);
+        v.extend_from_slice(&body);
+    }
+    v.truncate(n);
+    v
+}
+
+/// Octets shaped like what these AVPs carry in practice: an LCP-style packet
+/// (code, identifier, 16-bit length, option list), possibly nested, with the length field exact,
+/// off by one, or zero. Exactly `n` octets.
+pub fn protocol_like(r: &mut Rng, n: usize) -> Vec<u8> {
+    if n < 5 {
+        return option_list(r, n);
+    }
+    let depth = *r.pick(&[0usize, 1, 1, 1, 2, 2, 3]);
+    let mut v = Vec::with_capacity(n);
+    let mut left = n;
+    for _ in 0..depth {
+        if left < 5 {
+            break;
+        }
+        let code = *r.pick(&[1u8, 1, 1, 2, 3, 4, 0]);
+        let len = match r.below(8) {
+            0 => left.wrapping_sub(1),
+            1 => left + 1,
+            2 => 0,
+            _ => left,
+        } as u16;
+        v.push(code);
+        v.push(if r.bool() { 0x2a } else { r.u8() });
+        v.push((len >> 8) as u8);
+        v.push(len as u8);
+        left -= 4;
+    }
+    let tail = option_list(r, left);
+    v.extend_from_slice(&tail);
+    v
+}
+
 pub const KINDS: usize = 40; // 39 standard + hidden
 
 /// The attribute number of kind index k (0..39), `None` for the hidden pseudo-kind (39).
@@ -130,7 +183,11 @@ pub fn avp_of(r: &mut Rng, attr: u16, max_payload: usize) -> SAvp {
         Fmt::Fixed(n) => SBody::Bytes(r.bytes(n)),
         Fmt::VarBytes => {
             let n = var_len(r, maxp);
-            SBody::Bytes(r.bytes(n))
+            if r.chance(1, 5) {
+                SBody::Bytes(protocol_like(r, n))
+            } else {
+                SBody::Bytes(r.bytes(n))
+            }
         }
         Fmt::VarStr => {
             let n = var_len(r, maxp);
